@@ -7,7 +7,9 @@ from vlib.grammar import recase
 PREFIX = ['', ' ', '\n', '\t\n ', '/* c */', '/* c */ ', '-- c\n', '--c\n\n  ', '/* a */ -- b\n /* c */\n', '# c\n',
           '/*+ h */ ', '\r\n', '/**/',
           # whitespace beyond blank/tab/line ends (what \\s and str.isspace() accept)
-          '\xa0', '\u2028', '\x1c', '\u3000', '\x85 ', '\x0b', '\x0c\n']
+          '\xa0', '\u2028', '\x1c', '\u3000', '\x85 ', '\x0b', '\x0c\n',
+          # line comments and hints ended by each kind of line end
+          '-- c\r', '--+ h\r', '--+ h\n', '--+ h\r\n', '# + h\r', '/* a */--+ h\r']
 CASES = ['lower', 'upper', 'title', 'alt']
 # continuation after the head keyword: (text, kind) - kind names the cube for known findings
 CONT = [(' x', 'blank+name'), (' 1', 'blank+number'), (' *', 'blank+star'), (' (a)', 'blank+paren'),
@@ -133,6 +135,19 @@ def run(tier, seed):
 
     def work(chunk):
         import sqlparse
+        from sqlparse import lexer, tokens as T
+        # a caller's own Lexer with other ideas about the head words has lexed them before: the default parser's
+        # classification is its own
+        lexer.Lexer.get_default_instance()          # the default lexer exists already (a long-running process)
+        own2 = lexer.Lexer()
+        own2.clear()
+        own2.set_SQL_REGEX([(r'\w+', T.Keyword.DML), (r'\s+', T.Whitespace)])
+        list(own2.get_tokens(' '.join(NON_HEADS)))
+        own = lexer.Lexer()
+        own.default_initialization()
+        own.add_keywords({w.upper(): T.Name for w in PINNED_HEADS})
+        own.add_keywords({'FOO': T.Keyword.DML, 'REFRESH': T.Keyword.DDL, 'WITH': T.Name})
+        list(own.get_tokens(' '.join(PINNED_HEADS + NON_HEADS + ['with', 'refresh', 'recursive'])))
         acc = core.Acc(bits=24)
         for case in chunk:
             bad = check(sqlparse, case)
